@@ -1,5 +1,6 @@
 import WhatIs.Base.Bytes
 import WhatIs.Base.Info
+import WhatIs.Model.San
 import WhatIs.Gen.KeyUsage
 /-
   Model/Cert.lean — mirror of internal/file/der.go `getCertificateInfo`, `x509KeyUsages`, `x509EKUs` over the
@@ -30,6 +31,8 @@ structure CertFields where
   ipAddresses : List Bytes       -- net.IP.String()
   uris : List Bytes
   emails : List Bytes
+  sanExt : Option Bytes := none  -- value of the subjectAltName extension (2.5.29.17), when the certificate has one
+  dirNames : List (Bytes × Bytes) := []  -- oracle record: directoryName content ↦ its text by names.FromRawDN (C15)
   sigAlg : Bytes                 -- SignatureAlgorithm.String()
   pubKeyChild : Option Info      -- "Public key" child, when the SPKI unmarshals
   deriving Inhabited
@@ -58,7 +61,14 @@ def description (c : CertFields) : Bytes :=
 def showsPathLen (c : CertFields) : Bool :=
   c.bcValid && c.isCA && (decide (c.maxPathLen > 0) || (decide (c.maxPathLen = 0) && c.maxPathLenZero))
 
-def sans (c : CertFields) : List Bytes := c.dnsNames ++ c.ipAddresses ++ c.uris ++ c.emails
+/-- the names shown: with `Gen.certSansFromExtension` every GeneralName of the extension in the order encoded
+    (Model/San.lean); before the repair of D86 the four lists crypto/x509 keeps, grouped by kind -/
+def sans (c : CertFields) : List Bytes :=
+  if Gen.certSansFromExtension then
+    match c.sanExt with
+    | some ext => San.generalNames (fun d => (c.dirNames.lookup d).getD []) ext
+    | none => []
+  else c.dnsNames ++ c.ipAddresses ++ c.uris ++ c.emails
 
 /-- `getCertificateInfo` -/
 def certInfo (c : CertFields) : Info :=
